@@ -170,6 +170,9 @@ def run(tier):
         if i % 11 == 0:
             # (the right format must begin with a decoration character: the parser finds the right panel there)
             extra += ["--line-numbers-left-format", "{nm:>2}|", "--line-numbers-right-format", ":{np:>2}|"]
+        if i % 11 == 5 and W >= 30:
+            # a double-width character in the number formats (FULLWIDTH VERTICAL LINE): two columns of gutter each
+            extra += ["--line-numbers-left-format", "{nm:>2}\uff5c", "--line-numbers-right-format", ":{np:>2}\uff5c"]
         jobs.append((i, W, limit, maxlen, extra))
 
     def one(job):
